@@ -25,6 +25,8 @@ def op_target(world, op):
         return _f(world.system.tf)
     if t == "inf":
         return float("inf")
+    if t == "-inf":
+        return float("-inf")
     return float(np.asarray(t, dtype=world.problem.dtype))     # the library sees the target in the state's precision
 
 
